@@ -195,3 +195,43 @@ Section Refuse.
   Theorem refusal_writes_nothing e : o_written (obs_exit (load_err_code e)) = [] /\ o_ops (obs_exit (load_err_code e)) = [].
   Proof. split; reflexivity. Qed.
 End Refuse.
+
+(* ---- C13: loading does not depend on the order in which the OS lists a folder ---- *)
+Section LoadOrder.
+  Variable C : Type.
+  Variable cdig : C -> text.
+  Theorem discover_listing_order p parent h kids kids' :
+    NoDup (map fst kids) -> Permutation kids kids' ->
+    discover C cdig p parent (Dir h kids) = discover C cdig p parent (Dir h kids').
+  Proof.
+    intros Hn Hp. rewrite !discover_dir.
+    assert (Hs : forall par, sort name_leb (kid_results C cdig p par kids) = sort name_leb (kid_results C cdig p par kids')).
+    { intros par. apply sort_names_canonical.
+      - unfold kid_results. rewrite map_map. cbn [fst]. exact Hn.
+      - unfold kid_results. apply Permutation_map. exact Hp. }
+    destruct h as [hh|]; rewrite ?Hs; reflexivity.
+  Qed.
+  Theorem load_listing_order h kids kids' :
+    NoDup (map fst kids) -> Permutation kids kids' -> load C cdig (Dir h kids) = load C cdig (Dir h kids').
+  Proof.
+    intros Hn Hp. rewrite !load_dir.
+    replace (sort name_leb (kid_results C cdig [] [] kids')) with (sort name_leb (kid_results C cdig [] [] kids)); [reflexivity|].
+    apply sort_names_canonical.
+    - unfold kid_results. rewrite map_map. cbn [fst]. exact Hn.
+    - unfold kid_results. apply Permutation_map. exact Hp.
+  Qed.
+  (* manifests are sorted by number when loaded: the order of the files in the ascmhl folder is irrelevant *)
+  Theorem loaded_gens_listing_order files files' chain :
+    NoDup (map (mf_no C) files) -> Permutation files files' ->
+    loaded_gens C (mkHist C files chain) = loaded_gens C (mkHist C files' chain).
+  Proof.
+    intros Hn Hp. unfold loaded_gens. cbn [h_files].
+    change gen_leb with (leb_k g_no N.leb).
+    apply sort_key_canonical.
+    - intros a b. destruct (N.leb_spec a b); [left; reflexivity|right; apply N.leb_le; lia].
+    - intros a b c H1 H2. apply N.leb_le in H1, H2. apply N.leb_le. lia.
+    - intros a b H1 H2. apply N.leb_le in H1, H2. lia.
+    - rewrite map_map. cbn [g_no]. exact Hn.
+    - apply Permutation_map. exact Hp.
+  Qed.
+End LoadOrder.
